@@ -86,7 +86,7 @@ func cmdL1(args []string) {
 			if h.Config.AutoFlush && (gets(st, "step") == "Req" || gets(st, "step") == "Recv") && rec["ret"] == "ok" {
 				if rq, ok := st["req"].(map[string]any); ok && parked(M(rq)) {
 					if sid := w.sidOf(geti(st, "conn")); sid != 0 {
-						do(M{"step": "Tick", "sid": sid})
+						do(M{"step": "Tick", "sid": sid, "like": geti(st, "conn")})
 						do(M{"step": "Proc", "conn": geti(st, "conn")})
 					}
 				}
